@@ -111,8 +111,8 @@ package api
 
 // ---- package constants set once in init() (assumed, listed in evidence) ----
 
-//@ global RewardAmountDenominator != nil && quantity.Val(RewardAmountDenominator) > 0
-//@ global CommissionRateDenominator != nil && quantity.Val(CommissionRateDenominator) > 0
+//@ global RewardAmountDenominator != nil && allocated(RewardAmountDenominator) && quantity.Val(RewardAmountDenominator) > 0
+//@ global CommissionRateDenominator != nil && allocated(CommissionRateDenominator) && quantity.Val(CommissionRateDenominator) > 0
 
 //@ func CommissionSchedule.CurrentRate
 //@   trusted
@@ -130,6 +130,8 @@ package api
 //@   trusted
 //@   pure
 //@   ensures a == AddrOf(pk)
+//@   ensures !ufb("addrInvalid", a)
+//@   note an address derived from a public key is always a valid address (version byte + truncated hash)
 
 //@ func NewRuntimeAddress
 //@   trusted
